@@ -117,6 +117,7 @@ class Engine:
         self.effects = []       # ("RNG"|"CLOCK"|..., detail)
         self.dcache = {}
         self.path_assume = []   # assumptions added by the contract on this path
+        self.links = []         # fresh == old-term definitions behind summaries (not used in goal queries)
         self.labels = {}
         self.nfresh = 0
         self.axioms_used = set()
@@ -595,7 +596,7 @@ def symarr(name, shape):
 # ------------------------------------------------------------------ exploration
 class Path:
     __slots__ = ('taken', 'pc', 'defs', 'assume', 'oblig', 'effects', 'outcome', 'goals', 'observed',
-                 'axioms', 'extra', 'frames', 'notes')
+                 'axioms', 'extra', 'frames', 'notes', 'links')
 
 
 def explore(run, assume=(), max_paths=4000, on_path=None):
@@ -628,7 +629,7 @@ def explore(run, assume=(), max_paths=4000, on_path=None):
             p.assume = list(E.path_assume); p.oblig = list(E.oblig); p.effects = list(E.effects)
             p.outcome = outcome; p.axioms = set(E.axioms_used)
             p.extra = (PI_FACTS if E.used_pi else []) + (EUL_FACTS if E.used_e else [])
-            p.goals = []; p.observed = {}; p.frames = []; p.notes = []
+            p.goals = []; p.observed = {}; p.frames = []; p.notes = []; p.links = list(E.links)
             if on_path:
                 on_path(p)
             paths.append(p)
